@@ -10,6 +10,8 @@ NOTE = ("Trusts rustc nightly (type check, MIR construction, trait resolution), 
 CHECKS = {
  "C01": ("Structural discipline of the bump position: single writer family with classified value provenance (R1), hand-out <=> bump in the allocation primitive and no write in prepare primitives (R2), is-last/align_fits gates on every in-place path (R3), slow-path ordering (R4).",
          "Not decided: the integer arithmetic of bump_up/bump_down (C11), users' unsafe contracts."),
+ "C03": ("Checkpoint = (chunk, position) and its restore write (R1); scope-guard protocol incl. drop on return and on unwind of the user closure, checkpoint before align in scoped_aligned (R2); reset_to restores position and current chunk on every path, reset_to_start rewinds to the first chunk (R3); no chunk is freed on any scope-exit path (R4); new chunks only after later chunks were tried (R5); alloc_try_with(_mut) checkpoint-before-allocate and Err rewind (R6).",
+         "Not decided: numeric equality of allocated() before/after, that reset loops stop requesting chunks after finitely many rounds."),
  "C10": ("Every written position value is min-aligned by construction and the aligner helpers have their canonical form (R1, R1c); accounting identities allocated+remaining=capacity, size-capacity=header size and the Stats/AnyStats sum shapes (R2, affine value numbering); typed == type-erased accessors as affine normal forms (R3) and no size-dependent arithmetic on the erased header (R3b); chunk list link protocol (R4); recorded chunk size = aligned granted size (R5).",
          "Not decided: the numbers themselves (position inside the chunk, strict growth of chunk sizes, multiples of 16)."),
  "C13": ("Settings gates: position writes of deallocate bodies depend on S::DEALLOCATES, of shrink bodies on S::SHRINKS (R1); WithoutDealloc/WithoutShrink are no-ops exactly where promised (R2); reclaim writes the block's boundary, in-place upward grow keeps the address (R3); only tabled operations can move the position backwards (R4).",
